@@ -14,6 +14,9 @@ drv_policy ops (stateful: configurations, objects and one world of connections a
   cmp <cfgId> <typeObjId> <name>                                   _handle_cmp on type(obj)
   open <i> { key value }*      keys: safe exposed public all get set del pickle import inst oldstyle (T|F),
                                prefix (S..), safelist ([ S.. ])
+  openwith <i> <d>             open connection i with the application's dict object d (its content now)
+  dict <d> { key value }*      the application edits its dict object d (D.update(..))
+  setdefault { key value }*    the application edits DEFAULT_CONFIG
   slave <i> | close <i>
   wacc <i> <objId> <req> <name>          decision of connection i  (or `none`)
   wcfg <i>                               fresh | live <cfg> | closed <cfg>
@@ -216,6 +219,17 @@ def policyOp (st : PState) : List String → PState × String
     match nat? i, parseOverlay rest {} with
     | some i, some ov => ({ st with world := step st.world (.open i ov) }, "ok")
     | _, _ => (st, "bad-op")
+  | ["openwith", i, d] => match nat? i, nat? d with
+    | some i, some d => ({ st with world := step st.world (.openWith i d) }, "ok")
+    | _, _ => (st, "bad-op")
+  | "dict" :: d :: rest =>
+    match nat? d, parseOverlay rest {} with
+    | some d, some ov => ({ st with world := step st.world (.editDict d ov) }, "ok")
+    | _, _ => (st, "bad-op")
+  | "setdefault" :: rest =>
+    match parseOverlay rest {} with
+    | some ov => ({ st with world := step st.world (.setDefault ov) }, "ok")
+    | none => (st, "bad-op")
   | ["slave", i] => match nat? i with
     | some i => ({ st with world := step st.world (.slave i) }, "ok")
     | none => (st, "bad-op")
